@@ -34,6 +34,7 @@ type Report struct {
 	Violations   []Violation    `json:"violations"`
 	Distribution map[string]int `json:"distribution"`
 	CaseFiles    []string       `json:"case_files"`
+	CaseSets     []CaseSet      `json:"case_sets"`
 	CoqCases     int            `json:"coq_cases"`
 	Exhaustive   bool           `json:"exhaustive"`
 	Notes        []string       `json:"notes"`
@@ -82,14 +83,21 @@ type CaseWriter struct {
 	total       int
 	sb          strings.Builder
 	Labels      []string // label per case, for replay
+	Files       []string // case files written so far (a new file every fileChunks chunks, evaluated in parallel)
+	inFile      int
+	fileChunks  int
+	closed      bool
 }
 
 func NewCaseWriter(dir, name, header, elemType string) *CaseWriter {
-	w := &CaseWriter{dir: dir, name: name, header: header, elemType: elemType, chunkSize: 100}
+	w := &CaseWriter{dir: dir, name: name, header: header, elemType: elemType, chunkSize: 100, fileChunks: 2}
 	w.sb.WriteString(header)
 	w.sb.WriteString("\n")
+	allWriters = append(allWriters, w)
 	return w
 }
+
+var allWriters []*CaseWriter
 
 func (w *CaseWriter) Add(term string, label string) {
 	w.chunk = append(w.chunk, term)
@@ -108,17 +116,49 @@ func (w *CaseWriter) flush() {
 	fmt.Fprintf(&w.sb, "Definition M_%d := Eval vm_compute in mismatches ok cases_%d.\nPrint M_%d.\n", w.chunks, w.chunks, w.chunks)
 	w.chunks++
 	w.chunk = nil
+	w.inFile++
+	if w.inFile >= w.fileChunks {
+		w.writeFile()
+	}
+}
+
+func (w *CaseWriter) writeFile() {
+	if w.inFile == 0 {
+		return
+	}
+	p := filepath.Join(w.dir, fmt.Sprintf("%s_%03d.v", w.name, len(w.Files)))
+	_ = os.WriteFile(p, []byte(w.sb.String()), 0o644)
+	w.Files = append(w.Files, p)
+	w.sb.Reset()
+	w.sb.WriteString(w.header)
+	w.sb.WriteString("\n")
+	w.inFile = 0
 }
 
 func (w *CaseWriter) Close() (string, error) {
-	w.flush()
-	p := filepath.Join(w.dir, w.name+".v")
-	if err := os.WriteFile(p, []byte(w.sb.String()), 0o644); err != nil {
-		return "", err
+	if w.closed {
+		return w.name, nil
 	}
+	w.closed = true
+	w.flush()
+	w.writeFile()
 	lab, _ := json.Marshal(w.Labels)
 	_ = os.WriteFile(filepath.Join(w.dir, w.name+".labels.json"), lab, 0o644)
-	return p, nil
+	return w.name, nil
+}
+
+// CaseSet: the files of one CaseWriter and its labels file
+type CaseSet struct {
+	Name   string   `json:"name"`
+	Files  []string `json:"files"`
+	Labels string   `json:"labels"`
+	Cases  int      `json:"cases"`
+}
+
+// AddCases closes a case writer and records its files in the report.
+func (r *Report) AddCases(w *CaseWriter) error {
+	_, err := w.Close()
+	return err
 }
 
 type Runner func(seed int64, n int, tier string, outDir string) (*Report, error)
@@ -154,6 +194,16 @@ func main() {
 	}
 	rep.Property = prop
 	rep.Seed = *seed
+	// the case sets are taken from the writers themselves, whatever the runner recorded
+	rep.CaseSets, rep.CaseFiles, rep.CoqCases = nil, nil, 0
+	for _, w := range allWriters {
+		if !w.closed {
+			_, _ = w.Close()
+		}
+		rep.CaseSets = append(rep.CaseSets, CaseSet{Name: w.name, Files: w.Files, Labels: filepath.Join(w.dir, w.name+".labels.json"), Cases: w.total})
+		rep.CaseFiles = append(rep.CaseFiles, w.Files...)
+		rep.CoqCases += w.total
+	}
 	if rep.Violations == nil {
 		rep.Violations = []Violation{}
 	}
